@@ -100,6 +100,8 @@ def run_case(c):
         R.append(call("velocity", {"v": v, "via": "set_note Name-octave text, keyword"}, vs(lambda x: x.set_note("C-4", velocity=v)), integer))
         R.append(call("velocity", {"v": v, "via": "set_note dynamics"}, vs(lambda x: x.set_note("C", 4, {"velocity": v})), integer))
         R.append(call("velocity", {"v": v, "via": "constructor dynamics"}, lambda: Note("C", 4, {"velocity": v}).velocity, integer))
+        R.append(call("velocity", {"v": v, "via": "constructor Name-octave text, keyword"}, lambda: Note("C-4", velocity=v).velocity, integer))
+        R.append(call("velocity", {"v": v, "via": "constructor Name-octave text, dynamics"}, lambda: Note("C-4", dynamics={"velocity": v}).velocity, integer))
     elif k == "channel":
         ch = c["c"]
         def f2():
@@ -114,6 +116,8 @@ def run_case(c):
         R.append(call("channel", {"c": ch, "via": "set_note Name-octave text, keyword"}, cs(lambda x: x.set_note("C-4", channel=ch)), integer))
         R.append(call("channel", {"c": ch, "via": "set_note dynamics"}, cs(lambda x: x.set_note("C", 4, {"channel": ch})), integer))
         R.append(call("channel", {"c": ch, "via": "constructor dynamics"}, lambda: Note("C", 4, {"channel": ch}).channel, integer))
+        R.append(call("channel", {"c": ch, "via": "constructor Name-octave text, keyword"}, lambda: Note("C-4", channel=ch).channel, integer))
+        R.append(call("channel", {"c": ch, "via": "constructor Name-octave text, dynamics"}, lambda: Note("C-4", dynamics={"channel": ch}).channel, integer))
     elif k == "badname":
         s = txt(c["s"])
         R.append(call("badname", {"s": list(s), "via": "constructor"}, lambda: proj(Note(s))))
